@@ -80,6 +80,12 @@ struct Wide {
                 r = op == ADD_INT ? mpz_class(za + zk) : mpz_class(za * zk);
             }
             if (r != reduce(r) || (op == SHL && za < 0)) return o.discard("single-word-storage-overflow");
+            // most negative value of the storage word divided by -1 (by a wide or built-in -1): built-in overflow as well
+            if (za == -(mpz_class(1) << (W - 1))) {
+                bool const wide_div = op == DIV || op == MOD || op == A_DIV || op == A_MOD;
+                bool const int_div = op == DIV_INT || op == MOD_INT;
+                if ((wide_div && zb == -1) || (int_div && to_mpz(wrap_to<int>(zb)) == -1)) return o.discard("single-word-storage-overflow");
+            }
         }
         T a = make_rep<T>(za), b = make_rep<T>(zb);
         mpz_class expect, got;
@@ -315,7 +321,11 @@ struct Wide {
             }
         });
         if (!ok) {
-            o.fclass = std::string("op") + opname(op) + "/" + o.fclass;
+            // cause region: decimal text of the most negative value of a single-word (built-in) storage goes through cnl::to_chars,
+            // which negates the value in its own type (the C13/C14 finding)
+            std::string c0;
+            if (op == TEXT && !is_uintwide_v<Rep> && is_signed && za == -(mpz_class(1) << (W - 1))) c0 = "most-negative/", o.region = c0;
+            o.fclass = std::string("op") + opname(op) + "/" + c0 + o.fclass;
             return;
         }
         if (fail_detail == "skip") return o.discard("not-applicable-for-this-value");
